@@ -115,13 +115,36 @@ var sweepPkgs = []string{modPath, modPath + "/css", modPath + "/html", modPath +
 
 func init() {
 	customCheckers["sweep"] = sweepChecker
+	customCheckers["partial"] = partialChecker
 }
 
 // sweepChecker: zero-annotation no-panic sweep. The registry lists the safety obligations (index, slice, nil, division,
 // type assertion, make) that discharge on the unchanged tree with the built-in invariants only; each must keep discharging.
 func sweepChecker(cr *checkRun) {
+	fulls := sweepFuncs(cr.prog, sweepPkgs)
+	underContract := map[string]bool{}
+	for _, u := range allVerifiedUnits() {
+		underContract[u] = true
+	}
+	var sel []string
+	for _, full := range fulls {
+		if underContract[full] || cr.prog.Contracts[full] != nil {
+			continue // verified as a unit under (full or partial) contract elsewhere
+		}
+		sel = append(sel, full)
+	}
+	registryCheck(cr, cr.prop.ID+"-sweep", "sweep", sel, true)
+}
+
+// partialChecker: functions under PARTIAL contract (invariants supplied, not every obligation provable): every
+// obligation is generated; the ones that discharge on the unchanged tree are registered and claimed.
+func partialChecker(cr *checkRun) {
+	registryCheck(cr, cr.prop.ID+"-partial", "partial", cr.prop.Partial, false)
+}
+
+func registryCheck(cr *checkRun, regName, label string, fulls []string, safetyOnly bool) {
 	reg := map[string]bool{}
-	if b, err := os.ReadFile(filepath.Join(verifDir, "registry", cr.prop.ID+"-sweep.json")); err == nil {
+	if b, err := os.ReadFile(filepath.Join(verifDir, "registry", regName+".json")); err == nil {
 		var r struct {
 			Obligations []string `json:"obligations"`
 		}
@@ -131,35 +154,47 @@ func sweepChecker(cr *checkRun) {
 		}
 	}
 	writing := os.Getenv("GOVC_WRITE_REGISTRY") != ""
-	fulls := sweepFuncs(cr.prog, sweepPkgs)
-	underContract := map[string]bool{}
-	for _, u := range allVerifiedUnits() {
-		underContract[u] = true
-	}
 	var all []*Oblig
 	nfun, skipped, generated := 0, 0, 0
 	var skippedNames []string
 	for _, full := range fulls {
-		if underContract[full] || cr.prog.Contracts[full] != nil {
-			continue // verified as a unit under full contract elsewhere
-		}
 		rep, err := verifyFunc(cr.prog, full)
 		if err != nil {
+			if !safetyOnly {
+				cr.viol = append(cr.viol, violation{Obligation: full + "#exists", Kind: "missing", Unit: full, Detail: err.Error()})
+			}
 			continue
 		}
 		nfun++
 		if rep.OutOfSubset != "" {
 			skipped++
 			skippedNames = append(skippedNames, shortName(full)+": "+clipS(strings.SplitN(rep.OutOfSubset, "\n", 2)[0], 80))
+			if !safetyOnly {
+				cr.viol = append(cr.viol, violation{Obligation: shortName(full) + "#subset", Kind: "subset", Unit: full, Detail: "function left the verifiable subset: " + clipS(rep.OutOfSubset, 300)})
+			}
 			continue
 		}
 		for _, o := range rep.Obls {
-			switch o.Kind {
-			case "bounds.idx", "bounds.slice", "nil.deref", "nil.mapwrite", "div.zero", "typeassert", "bounds.make", "panic":
-				generated++
-				if writing || cr.tier == "thorough" || reg[o.Name] {
+			if o.Cover {
+				if !safetyOnly && !o.Soft {
 					all = append(all, o)
 				}
+				continue
+			}
+			claimable := true
+			if safetyOnly {
+				switch o.Kind {
+				case "bounds.idx", "bounds.slice", "nil.deref", "nil.mapwrite", "div.zero", "typeassert", "bounds.make", "panic":
+				default:
+					claimable = false
+				}
+			}
+			if !claimable {
+				continue
+			}
+			generated++
+			if writing || cr.tier == "thorough" || reg[o.Name] {
+				all = append(all, o)
 			}
 		}
 	}
@@ -175,6 +210,12 @@ func sweepChecker(cr *checkRun) {
 	var names []string
 	seen := map[string]bool{}
 	for _, o := range all {
+		if o.Cover {
+			if !o.OK() {
+				cr.viol = append(cr.viol, violation{Obligation: o.Name, Kind: "vacuity", Detail: "cover not satisfiable (" + o.Res.Status + ")"})
+			}
+			continue
+		}
 		seen[o.Name] = true
 		if o.OK() {
 			ok++
@@ -184,6 +225,9 @@ func sweepChecker(cr *checkRun) {
 				cr.nOK++
 				cr.byBackend[o.Res.Solver]++
 				cr.solverTime += o.Res.Time
+				if len(cr.samples) < 6 && label == "partial" && o.Res.Solver != "simplifier" && o.Kind == "overflow" {
+					cr.samples = append(cr.samples, map[string]string{"obligation": o.Name, "kind": o.Kind, "goal": clipS(o.Goal.String(), 300), "status": "unsat (discharged by " + o.Res.Solver + ")"})
+				}
 			}
 			continue
 		}
@@ -200,19 +244,31 @@ func sweepChecker(cr *checkRun) {
 	}
 	if writing {
 		sort.Strings(names)
-		b, _ := json.MarshalIndent(map[string]interface{}{"property": cr.prop.ID, "what": "safety obligations discharged by the zero-annotation sweep on the unchanged tree", "obligations": names}, "", " ")
+		b, _ := json.MarshalIndent(map[string]interface{}{"property": cr.prop.ID, "what": label + ": obligations discharged on the unchanged tree (the claimed set)", "obligations": names}, "", " ")
 		os.MkdirAll(filepath.Join(verifDir, "registry"), 0o755)
-		os.WriteFile(filepath.Join(verifDir, "registry", cr.prop.ID+"-sweep.json"), b, 0o644)
+		os.WriteFile(filepath.Join(verifDir, "registry", regName+".json"), b, 0o644)
 	}
 	cr.custom = append(cr.custom, map[string]interface{}{
-		"checker": "sweep", "functions": nfun, "functions_out_of_subset": skippedNames, "safety_obligations_generated": generated,
+		"checker": label, "functions": nfun, "function_names": shortNames(fulls, 12), "functions_out_of_subset": skippedNames, "obligations_generated": generated,
 		"registered_claimed": len(reg), "checked_this_run": len(all), "discharged_this_run": ok,
 		"registered_but_no_longer_generated": missing,
-		"note": "only registered obligations are claimed; the others (generated minus registered) are undecided without contracts and are NOT part of the claim",
+		"note": "only registered obligations are claimed; the others (generated minus registered) are undecided and are NOT part of the claim",
 	})
 	if len(reg) > 0 && len(all) == 0 {
-		cr.viol = append(cr.viol, violation{Obligation: "sweep#count", Kind: "vacuity", Detail: "no registered sweep obligation could be generated"})
+		cr.viol = append(cr.viol, violation{Obligation: label + "#count", Kind: "vacuity", Detail: "no registered obligation could be generated"})
 	}
+}
+
+func shortNames(fulls []string, max int) []string {
+	var out []string
+	for i, f := range fulls {
+		if i >= max {
+			out = append(out, fmt.Sprintf("... and %d more", len(fulls)-max))
+			break
+		}
+		out = append(out, shortName(f))
+	}
+	return out
 }
 
 func (cr *checkRun) handleSweepFailure(o *Oblig) {
